@@ -244,7 +244,8 @@ Definition cert (s : st) (a : act) (s1 : st) (more : list act) : Prop :=
   ( phi_obj s1 + sum wphi more < phi_obj s + wphi a \/
     ( eps_le s1 s /\ rq s1 = rq s /\
       forall rest, Wt s1 [] (more ++ rest) + Ltail s1 < Wt s [] (a :: rest) + Ltail s ) \/
-    ( exists e, a = AEpReap e /\ more = [] /\ s1 = set_rq s (rq s ++ [REp e]) /\ ep_has_pipes s e = true ) ).
+    ( exists e, a = AEpReap e /\ more = [] /\ s1 = set_rq s (rq s ++ [REp e]) /\ ep_has_pipes s e = true /\
+                close_pipes 0 (fun p => p_ep p =? e) (pipes s) = (pipes s, []) ) ).
 
 Lemma b2n_le b : b2n b <= 1.  Proof. destruct b; simpl; lia. Qed.
 
@@ -259,3 +260,893 @@ Proof. intros; unfold eps_le; simpl. apply Forall2_upd; auto. apply ep_le_refl. 
 Lemma Wt_step_le s1 s rest : eps_le s1 s -> Wt s1 [] rest <= Wt s [] rest.
 Proof. apply Wt_mono_same. Qed.
 
+Lemma close_pipes_facts sel l : forall i ps q, close_pipes i sel l = (ps, q) ->
+  sum phi_p ps + length q = sum phi_p l /\ sum busy_p ps = sum busy_p l /\ sum wq q = 6 * length q /\
+  (q = [] -> ps = l).
+Proof.
+  induction l as [|p r IH]; intros i ps q H; simpl in H.
+  - injection H as <- <-; simpl; auto.
+  - destruct (close_pipes (S i) sel r) as [r' q'] eqn:E. specialize (IH _ _ _ E) as (H1 & H2 & H3 & H4).
+    destruct (sel p && p_onlist p && negb (p_closed p)) eqn:Es; injection H as <- <-; simpl.
+    + apply andb_prop in Es as [_ Ec]. destruct p; simpl in *. unfold phi_p, busy_p in *; simpl in *.
+      destruct p_closed; [discriminate|]. simpl. repeat split; try lia. discriminate.
+    + repeat split; try lia. intros ->. rewrite H4; auto.
+Qed.
+
+Lemma shut_ctxs_facts l : forall cs a, shut_ctxs l = (cs, a) -> sum phi_c cs <= sum phi_c l.
+Proof.
+  induction l as [|c r IH]; intros cs a H; simpl in H.
+  - injection H as <- <-; simpl; auto.
+  - destruct (shut_ctxs r) as [r' l'] eqn:E. specialize (IH _ _ eq_refl).
+    destruct (c_onlist c) eqn:Eo; [destruct (c_ref c =? 0)|]; injection H as <- <-; simpl;
+      destruct c; unfold phi_c in *; simpl in *; subst; simpl;
+      repeat match goal with |- context[b2n (negb ?b)] => is_var b; destruct b; simpl end; lia.
+Qed.
+
+Ltac fin_plain_with tac :=
+  right; left;
+  match goal with |- eps_le ?s1 ?s /\ _ =>
+    let Hle := fresh "Hle" in
+    assert (Hle: eps_le s1 s) by tac;
+    split; [exact Hle|split; [try reflexivity|
+      let rest := fresh "rest" in intros rest;
+      pose proof (Wt_mono_same s1 s rest [] Hle); cbn [Wt w app] in *; unfold Ltail; simpl; try lia]] end.
+Ltac fin_plain := fin_plain_with ele.
+
+
+(* Phi does not increase (tac proves it); then the plain certificate *)
+Ltac cert_plain tac :=
+  unfold cert;
+  match goal with |- ?A <= ?B /\ _ =>
+    let Hp := fresh "Hp" in
+    assert (Hp: A <= B) by (unfold phi_obj, phi_k; simpl; tac);
+    split; [exact Hp|fin_plain] end.
+Ltac cert_strict tac :=
+  unfold cert;
+  match goal with |- ?A <= ?B /\ _ =>
+    let Hp := fresh "Hp" in
+    assert (Hp: A < B) by (unfold phi_obj, phi_k; simpl; tac);
+    split; [lia|left; exact Hp] end.
+
+Lemma cert_sock s a s1 more :
+  match a with
+  | AShutBegin _ | AShutPipes | AMsgqClose | AShutCtxs | AWaitCtxs | AWaitPipes | AProtoClose
+  | ASockClose2 _ | AWaitRefs | ASockDestroy | ASockRele | ARet _ _ _ => True
+  | _ => False
+  end ->
+  run_act fixes_all s a = Some (s1, more) -> cert s a s1 more.
+Proof.
+  intros Ha H.
+  destruct a; try contradiction; simpl in H.
+  - (* ARet *) inv_some H. cert_plain lia.
+  - (* AShutBegin *)
+    destruct (k_device (sk s) && negb dev).
+    { inv_some H. cert_plain lia. }
+    destruct (k_closing (sk s)) eqn:Ec.
+    { inv_some H. cert_plain lia. }
+    inv_some H. cert_strict ltac:(rewrite Ec; simpl; lia).
+  - (* AShutPipes *)
+    destruct (close_pipes 0 (fun _ => true) (pipes s)) as [ps q] eqn:E. inv_some H.
+    apply close_pipes_facts in E as (H1 & H2 & H3 & H4).
+    destruct q as [|i q].
+    + rewrite H4 by auto. rewrite app_nil_r. cert_plain lia.
+    + cert_strict ltac:(simpl in *; lia).
+  - (* AMsgqClose *)
+    destruct (k_phase (sk s)); inv_some H; cert_plain ltac:(destruct (k_pclosed (sk s)); simpl; lia).
+  - (* AShutCtxs *)
+    destruct (shut_ctxs (ctxs s)) as [cs l] eqn:E. inv_some H. apply shut_ctxs_facts in E. cert_plain lia.
+  - (* AWaitCtxs *) destruct (any_ctx_onlist s); [discriminate H|]. inv_some H. cert_plain lia.
+  - (* AWaitPipes *) destruct (any_pipe_onlist s); [discriminate H|]. inv_some H. cert_plain lia.
+  - (* AProtoClose *)
+    destruct (k_phase (sk s)); inv_some H; cert_plain ltac:(destruct (k_pclosed (sk s)), (k_shutdone (sk s)); simpl; lia).
+  - (* ASockClose2 *)
+    destruct (k_closed (sk s)) eqn:Ec; inv_some H.
+    + cert_plain lia.
+    + cert_strict ltac:(rewrite Ec; simpl; lia).
+  - (* AWaitRefs *) destruct ((k_ref (sk s) <=? 1) && negb (any_ctx_onlist s)); [|discriminate H]. inv_some H. cert_plain lia.
+  - (* ASockDestroy *)
+    destruct (k_finic (sk s) || true); inv_some H; cert_plain ltac:(destruct (k_freed (sk s)); simpl; lia).
+  - (* ASockRele *)
+    destruct (k_freed (sk s)); [inv_some H; cert_plain lia|].
+    destruct (k_ref (sk s)); inv_some H; cert_plain lia.
+Qed.
+
+Lemma sum_upd_le {A} (g : A -> nat) l i f : (forall x, g (f x) <= g x) -> sum g (upd l i f) <= sum g l.
+Proof. intros Hf; revert i; induction l; intros [|i]; simpl; auto. specialize (Hf a); lia. specialize (IHl i); lia. Qed.
+Lemma sum_upd_lt {A} (g : A -> nat) l i f x : nth_error l i = Some x -> g (f x) < g x -> sum g (upd l i f) < sum g l.
+Proof. intros E H. pose proof (sum_upd g l i f x E). lia. Qed.
+Lemma sum_upd_eq {A} (g : A -> nat) l i f : (forall x, g (f x) = g x) -> sum g (upd l i f) = sum g l.
+Proof. intros Hf; revert i; induction l; intros [|i]; simpl; auto; try (rewrite Hf; auto); try (rewrite IHl; auto). Qed.
+
+Ltac bdestr := repeat (match goal with
+  | |- context[b2n ?t] => match t with context[?b] => is_var b; match type of b with bool => destruct b; simpl in * end end
+  | H : context[b2n ?t] |- _ => match t with context[?b] => is_var b; match type of b with bool => destruct b; simpl in * end end
+  | H : context[if ?b then _ else _] |- _ => is_var b; destruct b; simpl in *
+  | |- context[if ?b then _ else _] => is_var b; destruct b; simpl in *
+  end).
+
+Lemma cert_ctx s a s1 more :
+  match a with ACtxOpen1 | ACtxOpen2 _ | ACtxClose _ | ACtxRele _ | ACtxDestroy _ => True | _ => False end ->
+  run_act fixes_all s a = Some (s1, more) -> cert s a s1 more.
+Proof.
+  intros Ha H.
+  destruct a; try contradiction; simpl in H.
+  - (* ACtxOpen1 *)
+    destruct (k_closed (sk s)); inv_some H.
+    + cert_strict ltac:(unfold PC; lia).
+    + cert_strict ltac:(rewrite sum_app; unfold PC, phi_c; simpl; lia).
+  - (* ACtxOpen2 *)
+    destruct (k_closing (sk s)); inv_some H.
+    + cert_plain lia.
+    + cert_plain ltac:(pose proof (sum_upd_le phi_c (ctxs s) c cset_pub) as X; lapply X; [lia|intros []; reflexivity]).
+  - (* ACtxClose *)
+    inv_some H. cert_plain ltac:(pose proof (sum_upd_le phi_c (ctxs s) c cset_closed) as X; lapply X; [lia|intros [] ; unfold phi_c; simpl; bdestr; lia]).
+  - (* ACtxRele *)
+    destruct (nth_error (ctxs s) c) as [x|] eqn:E; [|inv_some H; cert_plain lia].
+    destruct (c_freed x); [inv_some H; cert_plain lia|].
+    destruct (c_ref x) as [|n]; [inv_some H; cert_plain lia|].
+    destruct ((0 <? n) || negb (c_closed x)); inv_some H.
+    + cert_plain ltac:(pose proof (sum_upd_le phi_c (ctxs s) c (fun x => cset_ref x n)) as X; lapply X; [lia|intros []; reflexivity]).
+    + cert_plain ltac:(pose proof (sum_upd_le phi_c (ctxs s) c (fun x => cset_fini (cset_unlink (cset_ref x n)))) as X; lapply X; [lia|intros []; unfold phi_c; simpl; bdestr; lia]).
+  - (* ACtxDestroy *)
+    destruct (nth_error (ctxs s) c) as [x|] eqn:E; [|inv_some H; cert_plain lia].
+    destruct (k_freed (sk s)); inv_some H.
+    + cert_plain lia.
+    + cert_plain ltac:(pose proof (sum_upd_le phi_c (ctxs s) c cset_fini) as X; lapply X; [lia|intros []; unfold phi_c; simpl; bdestr; lia]).
+Qed.
+
+Lemma Wt_drop s1 s e : (forall cl, nuo s1 cl <= nuo s (e :: cl)) ->
+  forall r cl cl', (forall j, In j cl' -> j = e \/ In j cl) -> Wt s1 cl r <= Wt s cl' r.
+Proof.
+  intros Hn; induction r as [|a r IH]; intros cl cl' Hc; simpl; auto.
+  assert (Hn': nuo s1 cl <= nuo s cl').
+  { etransitivity; [apply Hn|]. apply nuo_from_incl. intros j Hj. destruct (Hc j Hj) as [->|]; simpl; auto. }
+  assert (Hr: Wt s1 (match a with AEpClose e0 => e0 :: cl | _ => cl end) r <= Wt s (match a with AEpClose e0 => e0 :: cl' | _ => cl' end) r).
+  { apply IH. destruct a; auto. intros j [->|Hj]; simpl; auto. destruct (Hc j Hj); auto. }
+  destruct a; simpl in *; unfold BB; nia.
+Qed.
+
+Lemma nuo_closed_irrel s e x cl : nth_error (eps s) e = Some x -> e_closed x = true -> nuo s cl <= nuo s (e :: cl).
+Proof. intros E Hc. unfold nuo. rewrite <- (nuo_from_closed_at 0 e cl (eps s) x E Hc). simpl. lia. Qed.
+
+Lemma nuo_close_upd s e f cl :
+  (forall x, e_closed (f x) = true) -> (forall x, e_onlist (f x) = e_onlist x) ->
+  nuo (set_eps s (upd (eps s) e f)) cl <= nuo s (e :: cl).
+Proof. intros; unfold nuo; simpl. apply (nuo_from_close_at 0 e cl (eps s) f); auto. Qed.
+
+
+(* ---- the general shape ---- *)
+Definition simple (a : act) : bool := match a with AEpClose _ | AShutEp => false | _ => true end.
+
+Lemma Wt_simple s cl more rest : forallb simple more = true -> Wt s cl (more ++ rest) = sum w more + Wt s cl rest.
+Proof.
+  induction more as [|a r IH]; simpl; auto. intros H; apply andb_prop in H as [Ha Hr].
+  destruct a; simpl in *; try discriminate Ha; rewrite IH by auto; lia.
+Qed.
+
+Lemma cert_gen s a s1 more :
+  simple a = true -> forallb simple more = true ->
+  phi_obj s1 + sum wphi more <= phi_obj s + wphi a ->
+  (phi_obj s1 + sum wphi more < phi_obj s + wphi a \/
+   (eps_le s1 s /\ rq s1 = rq s /\ sum w more + Ltail s1 < w a + Ltail s)) ->
+  cert s a s1 more.
+Proof.
+  intros Ha Hm Hp [Hlt|(Hle & Hq & Hl)]; split; auto.
+  right; left. split; auto. split; auto. intros rest.
+  rewrite Wt_simple by auto. pose proof (Wt_mono_same s1 s rest [] Hle).
+  destruct a; simpl in *; try discriminate Ha; lia.
+Qed.
+
+Lemma Forall2_upd_at {A} (R : A -> A -> Prop) (l : list A) i f x :
+  (forall y, R y y) -> nth_error l i = Some x -> R (f x) x -> Forall2 R (upd l i f) l.
+Proof.
+  intros Hr; revert i; induction l; intros [|i] E Hf; simpl in *; try discriminate.
+  - injection E as ->. constructor; auto. apply Forall2_refl; auto.
+  - constructor; auto.
+Qed.
+
+(* measure-relevant view of a state *)
+Definition mview (s : st) := (sk s, ctxs s, eps s, pipes s, rq s).
+
+Ltac ep_facts s e f x E :=
+  pose proof (sum_upd phi_e (eps s) e f x E);
+  pose proof (sum_upd busy_e (eps s) e f x E).
+Ltac pipe_facts s p f x E :=
+  pose proof (sum_upd phi_p (pipes s) p f x E);
+  pose proof (sum_upd busy_p (pipes s) p f x E).
+
+Ltac gen_strict := apply cert_gen; [reflexivity|reflexivity| |left]; unfold phi_obj; simpl.
+Ltac gen_plain := apply cert_gen; [reflexivity|reflexivity| |right; split; [|split; [reflexivity|]]]; unfold phi_obj, Ltail; simpl.
+Ltac ele_at E := unfold eps_le; simpl; eapply Forall2_upd_at; [apply ep_le_refl|exact E|unfold ep_le; simpl; let X := fresh in intros X; rewrite ?andb_false_r in X; simpl in X; try discriminate X; auto].
+Ltac nochange s := (replace (set_eps s (eps s)) with s by (destruct s; reflexivity)); (replace (set_pipes s (pipes s)) with s by (destruct s; reflexivity)); (replace (set_ctxs s (ctxs s)) with s by (destruct s; reflexivity)).
+
+Lemma cert_same s a s1 more : mview s1 = mview s -> simple a = true -> forallb simple more = true ->
+  sum wphi more <= wphi a -> sum w more < w a -> cert s a s1 more.
+Proof.
+  unfold mview; intros Hv; injection Hv as H1 H2 H3 H4 H5. intros.
+  apply cert_gen; auto; unfold phi_obj, Ltail, eps_le; rewrite ?H1, ?H2, ?H3, ?H4, ?H5; [lia|].
+  right. split; [apply Forall2_refl; apply ep_le_refl|]. split; auto. lia.
+Qed.
+Ltac same := apply cert_same; [reflexivity|reflexivity|reflexivity|simpl; unfold PC, PE; lia|simpl; lia].
+Ltac absum := repeat (match goal with
+                      | |- context[sum ?g ?l] => let v := fresh "S" in set (v := sum g l) in *; clearbody v
+                      | H : context[sum ?g ?l] |- _ => let v := fresh "S" in set (v := sum g l) in *; clearbody v
+                      end).
+Ltac ecs x := absum; destruct x; unfold phi_e, busy_e, e_fresh in *; simpl in *; subst; simpl in *.
+Ltac pcs x := absum; destruct x; unfold phi_p, busy_p in *; simpl in *; subst; simpl in *.
+
+Lemma cert_ep1 s a s1 more :
+  match a with AEpTranClose _ | AEpStopWait _ | AEpSockRemove _ | AEpDestroy _ | AEpStart _ _ | AEpRele _ | AEpCreate1 _ | AEpCreate2 _ => True | _ => False end ->
+  run_act fixes_all s a = Some (s1, more) -> cert s a s1 more.
+Proof.
+  intros Ha H.
+  destruct a; try contradiction; simpl in H.
+  - (* AEpCreate1 *)
+    inv_some H. gen_strict; rewrite sum_app; unfold PE, phi_e, e_fresh; simpl; lia.
+  - (* AEpCreate2 *)
+    destruct (nth_error (eps s) e) as [x|] eqn:E; [|inv_some H; same].
+    destruct (e_pub x || e_freed x || e_onlist x) eqn:Eg; [inv_some H; same|].
+    apply orb_false_elim in Eg as [Eg Eo]; apply orb_false_elim in Eg as [Epb Ef].
+    destruct (k_closing (sk s)); inv_some H.
+    + ep_facts s e (fun x => eset_freed (eset_inmap (eset_ref x 0) false)) x E.
+      gen_strict; ecs x; bdestr; lia.
+    + ep_facts s e (fun x => eset_pub (eset_onlist (eset_ref x (S (e_ref x))) true)) x E.
+      gen_strict; ecs x; bdestr; lia.
+  - (* AEpTranClose *)
+    inv_some H.
+    destruct (nth_error (eps s) e) as [x|] eqn:E.
+    + ep_facts s e eset_tranclosed x E.
+      destruct (e_tranclosed x) eqn:Et.
+      * gen_plain; [| ele_at E |]; ecs x; lia.
+      * gen_strict; ecs x; lia.
+    + rewrite nth_upd_none by auto. nochange s. same.
+  - (* AEpStopWait *)
+    destruct (nth_error (eps s) e) as [x|] eqn:E; [|inv_some H; same].
+    destruct (e_busy x =? 0); [|discriminate H]. inv_some H.
+    ep_facts s e eset_stopped x E.
+    gen_plain; [| ele_at E |]; ecs x; bdestr; lia.
+  - (* AEpSockRemove *)
+    destruct (nth_error (eps s) e) as [x|] eqn:E; [|inv_some H; same].
+    destruct (e_freed x); [inv_some H; same|].
+    destruct (e_onlist x) eqn:Eo; inv_some H; [|same].
+    ep_facts s e (fun x => eset_onlist x false) x E.
+    gen_plain; [| ele_at E |]; ecs x; bdestr; lia.
+  - (* AEpRele *)
+    destruct (nth_error (eps s) e) as [x|] eqn:E; [|inv_some H; same].
+    destruct (e_freed x); [inv_some H; same|].
+    destruct (e_ref x) as [|n]; [inv_some H; same|].
+    destruct ((n =? 0) && e_closed x).
+    + destruct (e_reapq x) eqn:Er; inv_some H; [same|].
+      ep_facts s e (fun x => eset_reapq (eset_ref x n)) x E.
+      gen_strict; ecs x; bdestr; lia.
+    + inv_some H. ep_facts s e (fun x => eset_ref x n) x E.
+      gen_plain; [| ele_at E |]; ecs x; lia.
+  - (* AEpStart *)
+    destruct (nth_error (eps s) e) as [x|] eqn:E; [|inv_some H; same].
+    destruct (e_freed x); [inv_some H; same|].
+    destruct (e_stopped x); inv_some H; [same|].
+    ep_facts s e (fun x => eset_pend (eset_busy x (S (e_busy x))) (e_pend x ++ [a])) x E.
+    gen_plain; [| ele_at E |]; ecs x; bdestr; lia.
+  - (* AEpDestroy *)
+    inv_some H.
+    destruct (nth_error (eps s) e) as [x|] eqn:E.
+    + ep_facts s e eset_freed x E.
+      gen_plain; [| ele_at E |]; ecs x; bdestr; lia.
+    + rewrite nth_upd_none by auto. nochange s. same.
+Qed.
+
+Lemma cert_pipe s a s1 more :
+  match a with APipeClose _ | APipeRele _ | APipeTranClose _ | APipeIdRemove _ | APipeStopWait _ | APipeRemove _ | AEpClosePipes _ | ASubmit _ _ _ => True | _ => False end ->
+  run_act fixes_all s a = Some (s1, more) -> cert s a s1 more.
+Proof.
+  intros Ha H.
+  destruct a; try contradiction; simpl in H.
+  - (* AEpClosePipes *)
+    destruct (close_pipes 0 (fun p => p_ep p =? e) (pipes s)) as [ps q] eqn:E. inv_some H.
+    apply close_pipes_facts in E as (H1 & H2 & H3 & H4).
+    destruct q as [|i q].
+    + rewrite H4 by auto. rewrite app_nil_r. same.
+    + gen_strict; simpl in *; lia.
+  - (* APipeClose *)
+    destruct (nth_error (pipes s) p) as [x|] eqn:E; [|inv_some H; same].
+    destruct (p_freed x); [inv_some H; same|].
+    destruct (p_closed x) eqn:Ec; inv_some H; [same|].
+    pipe_facts s p pset_closed x E. gen_strict; pcs x; bdestr; lia.
+  - (* APipeRele *)
+    destruct (nth_error (pipes s) p) as [x|] eqn:E; [|inv_some H; same].
+    destruct (p_freed x); [inv_some H; same|].
+    destruct (p_ref x) as [|n]; [inv_some H; same|].
+    destruct (n =? 0); inv_some H.
+    + pipe_facts s p (fun x => pset_freed (pset_ref x n)) x E.
+      gen_plain; [|ele|]; pcs x; bdestr; lia.
+    + pipe_facts s p (fun x => pset_ref x n) x E.
+      gen_plain; [|ele|]; pcs x; bdestr; lia.
+  - (* APipeTranClose *)
+    inv_some H. destruct (nth_error (pipes s) p) as [x|] eqn:E.
+    + pipe_facts s p pset_tranclosed x E.
+      destruct (p_tranclosed x) eqn:Et.
+      * gen_plain; [|ele|]; pcs x; lia.
+      * gen_strict; pcs x; lia.
+    + rewrite nth_upd_none by auto. nochange s. same.
+  - (* APipeIdRemove *)
+    inv_some H. destruct (nth_error (pipes s) p) as [x|] eqn:E.
+    + pipe_facts s p pset_unmap x E. gen_plain; [|ele|]; pcs x; bdestr; lia.
+    + rewrite nth_upd_none by auto. nochange s. same.
+  - (* APipeStopWait *)
+    destruct (nth_error (pipes s) p) as [x|] eqn:E; [|inv_some H; same].
+    destruct (p_busy x =? 0); [|discriminate H]. inv_some H.
+    pipe_facts s p pset_stopped x E. gen_plain; [|ele|]; pcs x; bdestr; lia.
+  - (* APipeRemove *)
+    inv_some H. destruct (nth_error (pipes s) p) as [x|] eqn:E.
+    + pipe_facts s p pset_unlist x E. gen_plain; [|ele|]; pcs x; bdestr; lia.
+    + rewrite nth_upd_none by auto. nochange s. same.
+  - (* ASubmit *)
+    destruct k as [c|].
+    + destruct (nth_error (ctxs s) c) as [x|] eqn:E; [|inv_some H; same].
+      destruct (c_freed x); [inv_some H; same|].
+      destruct (has_aio a (subm s)); [inv_some H; same|].
+      destruct blocks; inv_some H; [|same].
+      apply cert_gen; [reflexivity|reflexivity| |right; split; [ele|split; [reflexivity|unfold Ltail; simpl; lia]]].
+      unfold phi_obj; simpl.
+      pose proof (sum_upd_le phi_c (ctxs s) c (fun x0 => cset_pend x0 (c_pend x0 ++ [a]))) as X. lapply X; [lia|intros []; reflexivity].
+    + destruct (k_freed (sk s)); [inv_some H; same|].
+      destruct (has_aio a (subm s)); [inv_some H; same|].
+      destruct (k_pclosed (sk s) && k_latch (sk s)); [inv_some H; same|].
+      destruct blocks; inv_some H; [|same].
+      apply cert_gen; [reflexivity|reflexivity|unfold phi_obj, phi_k; simpl; lia|right; split; [ele|split; [reflexivity|unfold Ltail; simpl; lia]]].
+Qed.
+
+Lemma w_find u : w (AFind u) = 2 + sum w (after_find u).
+Proof. destruct u as [| | | | | | | |[c|] ? ?| | | |]; reflexivity. Qed.
+
+Lemma find_idx_spec {A} (f : A -> bool) l : forall i j, find_idx f l i = Some j ->
+  i <= j /\ exists x, nth_error l (j - i) = Some x /\ f x = true.
+Proof.
+  induction l as [|y r IH]; intros i j H; simpl in H; [discriminate|].
+  destruct (f y) eqn:E.
+  - injection H as <-. split; auto. exists y. rewrite Nat.sub_diag; auto.
+  - apply IH in H as (Hle & x & Hn & Hf). split; [lia|]. exists x. split; auto.
+    replace (j - i) with (S (j - S i)) by lia. auto.
+Qed.
+
+Lemma first_ep_onlist es e x : first_ep es = Some e -> nth_error es e = Some x -> e_onlist x = true.
+Proof.
+  unfold first_ep; intros H E.
+  destruct (find_idx (fun e0 => e_onlist e0 && negb (e_dialer e0)) es 0) eqn:F.
+  - injection H as ->. apply find_idx_spec in F as (_ & y & Hn & Hf). rewrite Nat.sub_0_r in Hn.
+    rewrite E in Hn; injection Hn as <-. apply andb_prop in Hf as [Hf _]; auto.
+  - apply find_idx_spec in H as (_ & y & Hn & Hf). rewrite Nat.sub_0_r in Hn.
+    rewrite E in Hn; injection Hn as <-. auto.
+Qed.
+
+Lemma nuo_from_oob i cl e es : i + length es <= e -> nuo_from i (e :: cl) es = nuo_from i cl es.
+Proof.
+  revert i; induction es as [|y r IH]; intros i H; simpl in *; auto.
+  replace (i =? e) with false by (symmetry; apply Nat.eqb_neq; lia). simpl. rewrite IH by lia. auto.
+Qed.
+
+Lemma cert_epclose s e s1 more : run_act fixes_all s (AEpClose e) = Some (s1, more) -> bad s1 = bad s -> cert s (AEpClose e) s1 more.
+Proof.
+  intros H Hb. simpl in H.
+  destruct (nth_error (eps s) e) as [x|] eqn:E.
+  - destruct (e_freed x).
+    { inv_some H. simpl in Hb. exfalso. revert Hb. generalize (bad s). intros l X.
+      assert (Y: length (l ++ [B_USE_FREED]) = length l) by (rewrite X; auto). rewrite app_length in Y; simpl in Y; lia. }
+    destruct (e_closed x) eqn:Ec; inv_some H.
+    + (* already closed: only the release *)
+      unfold cert. split; [unfold phi_obj; simpl; lia|]. right; left.
+      split; [apply eps_le_refl|]. split; auto. intros rest. cbn [Wt w app].
+      assert (X: Wt s [] rest <= Wt s [e] rest).
+      { apply (Wt_drop s s e); [intros cl; eapply nuo_closed_irrel; eauto|]. intros j [->|[]]; auto. }
+      lia.
+    + (* the close proper: the closed latch pays *)
+      ep_facts s e eset_closed x E.
+      unfold cert. assert (Hp: phi_obj (set_eps s (upd (eps s) e eset_closed)) + sum wphi [AEpTranClose e; AEpStopWait e; AEpClosePipes e; AEpSockRemove e; AEpRele e; AEpRele e] < phi_obj s + wphi (AEpClose e)).
+      { unfold phi_obj; simpl. ecs x; bdestr; lia. }
+      split; [lia|left; exact Hp].
+  - inv_some H. unfold cert. split; [unfold phi_obj; simpl; lia|]. right; left.
+    split; [apply eps_le_refl|]. split; auto. intros rest. cbn [Wt w app].
+    assert (X: Wt s [] rest <= Wt s [e] rest).
+    { apply (Wt_drop s s e); [|intros j [->|[]]; auto]. intros cl. unfold nuo. rewrite nuo_from_oob; auto.
+      apply nth_error_None in E. simpl; lia. }
+    lia.
+Qed.
+
+Lemma nuo_upd_same s e f cl : (forall x, e_onlist (f x) = e_onlist x) -> (forall x, e_closed (f x) = e_closed x) ->
+  nuo (set_eps s (upd (eps s) e f)) cl = nuo s cl.
+Proof.
+  intros Ho Hc. unfold nuo; simpl. generalize 0. revert e. induction (eps s) as [|y r IH]; intros [|e] i; simpl; auto;
+    rewrite ?Ho, ?Hc, ?IH; auto.
+Qed.
+
+Lemma cert_shutep s s1 more : run_act fixes_all s AShutEp = Some (s1, more) -> cert s AShutEp s1 more.
+Proof.
+  intros H. simpl in H.
+  destruct (first_ep (eps s)) as [e|] eqn:F.
+  2:{ inv_some H. unfold cert. split; [unfold phi_obj; simpl; lia|]. right; left.
+      split; [apply eps_le_refl|]. split; auto. intros rest. cbn [Wt w app]. lia. }
+  destruct (nth_error (eps s) e) as [x|] eqn:E.
+  2:{ inv_some H. unfold cert. split; [unfold phi_obj; simpl; lia|]. right; left.
+      split; [apply eps_le_refl|]. split; auto. intros rest. cbn [Wt w app]. lia. }
+  destruct (e_closed x) eqn:Ec; [discriminate H|]. inv_some H.
+  pose proof (first_ep_onlist _ _ _ F E) as Ho.
+  set (s1 := set_eps s (upd (eps s) e (fun x0 => eset_ref x0 (S (e_ref x0))))).
+  assert (Hn: forall cl, nuo s1 cl = nuo s cl) by (intros; apply nuo_upd_same; intros []; reflexivity).
+  assert (Hle: eps_le s1 s) by (unfold s1; ele_at E).
+  unfold cert. split.
+  { unfold phi_obj; simpl. pose proof (sum_upd_le phi_e (eps s) e (fun x0 => eset_ref x0 (S (e_ref x0)))) as X.
+    lapply X; [lia|intros []; reflexivity]. }
+  right; left. split; auto. split; auto. intros rest. cbn [Wt w app].
+  rewrite Hn.
+  assert (X1: nuo s [e] + 1 <= nuo s []) by (apply (nuo_from_open_at 0 e [] (eps s) x); auto).
+  assert (X2: Wt s1 [e] rest <= Wt s [] rest) by (apply Wt_mono; auto; intros j []).
+  assert (X3: Ltail s1 = Ltail s).
+  { unfold Ltail, s1; simpl. rewrite (sum_upd_eq busy_e) by (intros []; reflexivity). auto. }
+  unfold BB. nia.
+Qed.
+
+Lemma cert_find s u s1 more : run_act fixes_all s (AFind u) = Some (s1, more) -> cert s (AFind u) s1 more.
+Proof.
+  intros H.
+  assert (G: forall s1 more, (phi_obj s1 = phi_obj s /\ eps_le s1 s /\ rq s1 = rq s /\ Ltail s1 = Ltail s) ->
+             (more = after_find u \/ exists rv, more = [ARet u rv R_NA]) \/ more = [] -> cert s (AFind u) s1 more).
+  { clear. intros s1 more (P1 & Hle & P3 & P4) Hm.
+    unfold cert. rewrite P1, P4.
+    assert (W1: sum wphi more <= wphi (AFind u)).
+    { destruct Hm as [[->|[rv ->]]| ->]; destruct u as [| | | | | | | |[c|] ? ?| | | |]; simpl; unfold PC, PE; lia. }
+    split; [lia|]. right; left. split; auto. split; auto. intros rest.
+    pose proof (Wt_mono_same s1 s rest [] Hle) as M0.
+    destruct Hm as [[->|[rv ->]]| ->].
+    - (* success *)
+      destruct u as [| | | | | e| | |[c|] ? ?| | | |]; cbn [after_find Wt w app]; simpl; try lia;
+        match goal with |- context[Wt s1 [?e0] rest] =>
+          assert (M1: Wt s1 [e0] rest <= Wt s [] rest) by (apply Wt_mono; auto; intros j []); simpl; lia end.
+    - cbn [Wt app]. rewrite w_find. destruct u as [| | | | | | | |[c|] ? ?| | | |]; simpl; lia.
+    - cbn [Wt app]. rewrite w_find. simpl; lia. }
+  simpl in H.
+  destruct u as [| | |c|d|e|e a|p|[c|] a b| |c|e|p];
+    repeat (match type of H with
+            | context[match ?x with _ => _ end] => destruct x eqn:?
+            | context[if ?x then _ else _] => destruct x eqn:?
+            end); try discriminate H; inv_some H; apply G; try (left; left; reflexivity); eauto;
+    (split; [|split; [|split]]);
+    unfold phi_obj, phi_k, Ltail, eps_le; simpl;
+    rewrite ?(sum_upd_eq phi_c), ?(sum_upd_eq phi_e), ?(sum_upd_eq phi_p), ?(sum_upd_eq busy_e), ?(sum_upd_eq busy_p) by (intros []; reflexivity); auto;
+    first [apply Forall2_refl; apply ep_le_refl | apply Forall2_upd; [apply ep_le_refl|intros []; unfold ep_le; simpl; auto]].
+Qed.
+
+Lemma cert_reap s e s1 more : run_act fixes_all s (AEpReap e) = Some (s1, more) -> cert s (AEpReap e) s1 more.
+Proof.
+  intros H. simpl in H.
+  destruct (ep_has_pipes s e) eqn:Ep; [|inv_some H; same].
+  destruct (close_pipes 0 (fun p => p_ep p =? e) (pipes s)) as [ps q] eqn:E. inv_some H.
+  pose proof (close_pipes_facts _ _ _ _ _ E) as (H1 & H2 & H3 & H4).
+  destruct q as [|i q].
+  - rewrite H4 in * by auto. nochange s. simpl. unfold cert. split; [unfold phi_obj; simpl; lia|].
+    right; right. exists e. auto.
+  - gen_strict; simpl in *; lia.
+Qed.
+
+Lemma cert_all s a s1 more : run_act fixes_all s a = Some (s1, more) -> bad s1 = bad s -> cert s a s1 more.
+Proof.
+  intros H Hb.
+  destruct a eqn:Ea;
+    first [ apply cert_sock; [exact I|exact H] | apply cert_ctx; [exact I|exact H] | apply cert_ep1; [exact I|exact H]
+          | apply cert_pipe; [exact I|exact H] | apply cert_find; exact H | apply cert_shutep; exact H
+          | apply cert_epclose; [exact H|exact Hb] | apply cert_reap; exact H ].
+Qed.
+
+(* ================================================================ the theorem *)
+Definition noreap (l : list act) : bool := forallb (fun a => match a with AEpReap _ => false | _ => true end) l.
+
+(* a closed pipe that is still on the socket's list is queued for the reaper or being reaped *)
+Definition I2 (s : st) : Prop :=
+  forall p x, nth_error (pipes s) p = Some x -> p_closed x = true -> p_onlist x = true ->
+              In (RPipe p) (rq s) \/ In (APipeRemove p) (reaper s).
+Definition reaper_shape (r : list act) : Prop :=
+  match r with AEpReap _ :: r' => r' = [] | _ => noreap r = true end.
+Definition TInv (s : st) : Prop :=
+  I2 s /\ Forall (fun t => noreap t = true) (threads s) /\ reaper_shape (reaper s).
+
+Lemma nuo_ext s1 s2 cl : eps s1 = eps s2 -> nuo s1 cl = nuo s2 cl.
+Proof. unfold nuo; intros ->; auto. Qed.
+Lemma Wt_ext s1 s2 : eps s1 = eps s2 -> forall l cl, Wt s1 cl l = Wt s2 cl l.
+Proof. intros E; induction l; intros cl; simpl; auto. rewrite IHl. rewrite (nuo_ext s1 s2 cl E). auto. Qed.
+
+Lemma sum_upd_mono {A} (g g' : A -> nat) l k x y :
+  nth_error l k = Some x -> (forall z, g' z <= g z) -> sum g' (upd l k (fun _ => y)) + g x <= sum g l + g' y.
+Proof.
+  intros E Hg. revert k E; induction l as [|z r IH]; intros [|k] E; simpl in *; try discriminate.
+  - injection E as ->. pose proof (sum_le g' g r Hg). lia.
+  - specialize (IH k E). specialize (Hg z). lia.
+Qed.
+
+Lemma close_pipes_nil sel l : forall i ps, close_pipes i sel l = (ps, []) ->
+  forall p x, nth_error l p = Some x -> sel x = true -> p_onlist x = true -> p_closed x = true.
+Proof.
+  induction l as [|y r IH]; intros i ps H p x E Hs Ho; [destruct p; discriminate|].
+  simpl in H. destruct (close_pipes (S i) sel r) as [r' q'] eqn:Ec.
+  destruct (sel y && p_onlist y && negb (p_closed y)) eqn:Eb; [discriminate H|].
+  injection H as <- ->. destruct p as [|p]; simpl in E.
+  - injection E as ->. rewrite Hs, Ho in Eb. simpl in Eb. destruct (p_closed x); auto.
+  - eapply IH; eauto.
+Qed.
+
+Lemma count_pipe_In p l : In (RPipe p) l -> 1 <= count_pipe l.
+Proof. induction l as [|[q|e] r IH]; simpl; [tauto| |]; intros [H|H]; try discriminate; try lia. apply IH in H; lia. Qed.
+
+Lemma ep_has_pipes_ex s e : ep_has_pipes s e = true -> exists p x, nth_error (pipes s) p = Some x /\ p_onlist x = true /\ (p_ep x =? e) = true.
+Proof.
+  unfold ep_has_pipes. rewrite existsb_exists. intros (x & Hin & Hb). apply In_nth_error in Hin as [p Hp].
+  apply andb_prop in Hb as [H1 H2]. eauto.
+Qed.
+
+Lemma run_act_noreap fx s a s1 more : run_act fx s a = Some (s1, more) -> noreap more = true.
+Proof.
+  unfold run_act; intros H.
+  destruct a; repeat (match type of H with
+                      | context[match ?x with _ => _ end] => destruct x eqn:?
+                      | context[if ?x then _ else _] => destruct x eqn:?
+                      end); try discriminate H; inv_some H; auto.
+  all: match goal with |- noreap (after_find ?u) = true => destruct u as [| | | | | | | |[c|] ? ?| | | |]; reflexivity end.
+Qed.
+
+Lemma sum_ext {A} (f g : A -> nat) l : (forall x, f x = g x) -> sum f l = sum g l.
+Proof. intros H; induction l; simpl; auto. Qed.
+
+Lemma lt3_le a1 a2 a3 b1 b2 b3 :
+  a1 <= b1 -> (a1 < b1 \/ (a2 <= b2 /\ (a2 < b2 \/ a3 < b3))) -> lt3 (a1, a2, a3) (b1, b2, b3).
+Proof. unfold lt3; intros. lia. Qed.
+
+Lemma reaper_shape_head r e rest : reaper_shape r -> r = AEpReap e :: rest -> rest = [].
+Proof. intros H ->; exact H. Qed.
+
+Theorem step_decreases s l s' :
+  TInv s -> internal s l = true -> step fixes_all s l = Some s' -> bad s' = bad s -> lt3 (M3 s') (M3 s).
+Proof.
+  intros (Hi2 & Hnr & Hrs) Hint Hstep Hbad.
+  destruct l; simpl in Hint; try discriminate Hint; simpl in Hstep.
+  - (* LRun *)
+    destruct (nth_error (threads s) k) as [[|a rest]|] eqn:Et; try discriminate Hstep.
+    destruct (run_act fixes_all s a) as [[s1 more]|] eqn:Er; [|discriminate Hstep].
+    injection Hstep as <-. simpl in Hbad.
+    pose proof (run_act_frame _ _ _ _ _ Er) as [Ft Fr].
+    pose proof (cert_all _ _ _ _ Er Hbad) as [Cle Cc].
+    set (s' := set_threads s1 (upd (threads s1) k (fun _ => more ++ rest))).
+    assert (P: Phi s' + wphi a + phi_obj s = Phi s + sum wphi more + phi_obj s1).
+    { unfold Phi, s'; simpl. rewrite Ft, Fr.
+      pose proof (sum_upd (sum wphi) (threads s) k (fun _ => more ++ rest) _ Et) as X. simpl in X.
+      rewrite sum_app in X. unfold phi_obj in *; simpl. lia. }
+    unfold M3. apply lt3_le; [lia|].
+    destruct Cc as [Cs|[(Hle & Hq & Hw)|(e & -> & _)]].
+    + left; lia.
+    + right. split.
+      * unfold PS, s'; simpl. rewrite Fr, Hq. auto.
+      * right. unfold L.
+        assert (W1: forall l cl, Wt s' cl l = Wt s1 cl l) by (apply Wt_ext; reflexivity).
+        assert (X1: sum (Wt s' []) (threads s') + Wt s [] (a :: rest) <= sum (Wt s []) (threads s) + Wt s' [] (more ++ rest)).
+        { unfold s' at 2. cbn [threads set_threads]. rewrite Ft. apply (sum_upd_mono (Wt s []) (Wt s' [])); auto. intros z. rewrite W1. apply Wt_mono_same; auto. }
+        assert (X2: Wt s' [] (reaper s') <= Wt s [] (reaper s)).
+        { rewrite W1. unfold s'. cbn [reaper set_threads]. rewrite Fr. apply Wt_mono_same; auto. }
+        assert (X3: Ltail s' = Ltail s1) by reflexivity.
+        specialize (Hw rest). rewrite W1 in X1. lia.
+    + exfalso. eapply Forall_nth in Hnr; eauto. simpl in Hnr. discriminate Hnr.
+  - (* LReap *)
+    destruct (reaper s) as [|a rest] eqn:Erp.
+    + (* next item *)
+      destruct (rq s) as [|[p|e] q] eqn:Eq; [discriminate Hstep| |]; injection Hstep as <-; unfold M3; apply lt3_le.
+      * unfold Phi, phi_obj; simpl. rewrite Erp; simpl. lia.
+      * right. split; [unfold PS; simpl; rewrite Erp, Eq; simpl; lia|]. right.
+        unfold L, Ltail; simpl. rewrite Erp, Eq. simpl.
+        rewrite (sum_ext _ (Wt s [])) by (intros; apply Wt_ext; reflexivity). lia.
+      * unfold Phi, phi_obj; simpl. rewrite Erp; simpl. lia.
+      * right. split; [unfold PS; simpl; rewrite Erp, Eq; simpl; lia|]. right.
+        unfold L, Ltail; simpl. rewrite Erp, Eq. simpl.
+        rewrite (sum_ext _ (Wt s [])) by (intros; apply Wt_ext; reflexivity). lia.
+    + destruct (run_act fixes_all s a) as [[s1 more]|] eqn:Er; [|discriminate Hstep].
+      injection Hstep as <-. simpl in Hbad.
+      pose proof (run_act_frame _ _ _ _ _ Er) as [Ft Fr].
+      pose proof (cert_all _ _ _ _ Er Hbad) as [Cle Cc].
+      set (s' := set_reaper s1 (more ++ rest)).
+      assert (P: Phi s' + wphi a + phi_obj s = Phi s + sum wphi more + phi_obj s1).
+      { unfold Phi, s'; simpl. rewrite Ft, Erp. simpl. rewrite sum_app. unfold phi_obj in *; simpl. lia. }
+      assert (W1: forall l cl, Wt s' cl l = Wt s1 cl l) by (apply Wt_ext; reflexivity).
+      unfold M3. apply lt3_le; [lia|].
+      destruct Cc as [Cs|[(Hle & Hq & Hw)|(e & -> & -> & -> & Hep & Hcl)]].
+      * left; lia.
+      * right. split.
+        -- (* PS: the reaper's head changes only away from AEpReap *)
+           unfold PS, s'; simpl. rewrite Erp, Hq.
+           pose proof (run_act_noreap _ _ _ _ _ Er) as Hm.
+           assert (Hrest: noreap rest = true \/ rest = []).
+           { unfold reaper_shape in Hrs. destruct a; simpl in Hrs; try (apply andb_prop in Hrs as [_ Hrs]; auto); auto. }
+           assert (Hh: rhead (more ++ rest) = []).
+           { destruct more as [|m0 mr]; simpl.
+             - destruct Hrest as [Hr| ->]; auto. destruct rest as [|[] ?]; simpl in *; auto; discriminate Hr.
+             - destruct m0; simpl in *; auto; discriminate Hm. }
+           rewrite Hh. simpl. destruct a; simpl; lia.
+        -- right. unfold L.
+           assert (X1: sum (Wt s' []) (threads s') <= sum (Wt s []) (threads s)).
+           { unfold s' at 2. cbn [threads set_reaper]. rewrite Ft. apply sum_le. intros z. rewrite W1. apply Wt_mono_same; auto. }
+           assert (X3: Ltail s' = Ltail s1) by reflexivity.
+           specialize (Hw rest). change (reaper s') with (more ++ rest). rewrite W1, Erp. lia.
+      * (* the endpoint goes back to the end of the queue, behind its pipes *)
+        assert (rest = []) by (exact Hrs). subst rest.
+        right. split; [|left].
+        -- unfold PS; simpl. rewrite Erp. simpl. rewrite ps_list_app_ep. lia.
+        -- unfold PS; simpl. rewrite Erp. simpl. rewrite ps_list_app_ep.
+           apply ep_has_pipes_ex in Hep as (p & x & Hn & Ho & Hpe).
+           pose proof (close_pipes_nil _ _ _ _ Hcl p x Hn Hpe Ho) as Hc.
+           destruct (Hi2 p x Hn Hc Ho) as [Hin|Hin].
+           ++ apply count_pipe_In in Hin. lia.
+           ++ rewrite Erp in Hin. simpl in Hin. destruct Hin as [Hin|[]]; discriminate Hin.
+  - (* LEpCb *)
+    destruct (nth_error (eps s) e) as [x|] eqn:E; [|discriminate Hint].
+    destruct (e_busy x) as [|n] eqn:Eb; [discriminate Hstep|]. injection Hstep as <-.
+    set (f := fun x0 => eset_pend (eset_busy x0 n) []).
+    assert (Hn: forall l cl, Wt (set_done (set_eps s (upd (eps s) e f)) (done s ++ fail_all (if e_tranclosed x then C_ECLOSED else rv) (e_pend x))) cl l = Wt s cl l).
+    { induction l as [|a r IH]; intros cl; simpl; auto. rewrite IH.
+      replace (nuo _ cl) with (nuo s cl); auto. symmetry. apply (nuo_upd_same s e f cl); intros []; reflexivity. }
+    unfold M3. apply lt3_le.
+    + unfold Phi, phi_obj; simpl. rewrite (sum_upd_eq phi_e) by (intros []; reflexivity). lia.
+    + right. split; [unfold PS; simpl; lia|]. right.
+      unfold L, Ltail; simpl. rewrite Hn.
+      rewrite (sum_ext _ (Wt s [])) by (intros; apply Hn).
+      pose proof (sum_upd busy_e (eps s) e f x E) as X.
+      assert (Y: busy_e (f x) + 1 = busy_e x) by (destruct x; unfold busy_e, f; simpl in *; rewrite Hint; subst; lia).
+      lia.
+  - (* LPipeCb *)
+    destruct (nth_error (pipes s) p) as [x|] eqn:E; [|discriminate Hint].
+    destruct (p_busy x) as [|n] eqn:Eb; [discriminate Hstep|]. injection Hstep as <-.
+    set (f := fun x0 => pset_busy x0 n).
+    unfold M3. apply lt3_le.
+    + unfold Phi, phi_obj; simpl. rewrite (sum_upd_eq phi_p) by (intros []; reflexivity). lia.
+    + right. split; [unfold PS; simpl; lia|]. right.
+      unfold L, Ltail; simpl.
+      rewrite (Wt_ext _ s) by reflexivity.
+      rewrite (sum_ext _ (Wt s [])) by (intros; apply Wt_ext; reflexivity).
+      pose proof (sum_upd busy_p (pipes s) p f x E) as X.
+      assert (Y: busy_p (f x) + 1 = busy_p x) by (destruct x; unfold busy_p, f; simpl in *; rewrite Hint; subst; lia).
+      lia.
+Qed.
+
+(* ================================================================ the invariant of the theorem *)
+Lemma noreap_app l1 l2 : noreap (l1 ++ l2) = noreap l1 && noreap l2.
+Proof. unfold noreap. apply forallb_app. Qed.
+Lemma noreap_shape r : noreap r = true -> reaper_shape r.
+Proof. destruct r as [|[] r]; simpl; auto; discriminate. Qed.
+
+Lemma close_pipes_I2 sel l : forall i ps q, close_pipes i sel l = (ps, q) ->
+  forall p x1, nth_error ps p = Some x1 -> p_closed x1 = true -> p_onlist x1 = true ->
+    In (RPipe (i + p)) q \/ (exists x, nth_error l p = Some x /\ p_closed x = true /\ p_onlist x = true).
+Proof.
+  induction l as [|y r IH]; intros i ps q H p x1 E Hc Ho; simpl in H.
+  - injection H as <- <-. destruct p; discriminate E.
+  - destruct (close_pipes (S i) sel r) as [r' q'] eqn:Ec.
+    destruct (sel y && p_onlist y && negb (p_closed y)) eqn:Eb; injection H as <- <-.
+    + destruct p as [|p]; simpl in E.
+      * left. left. f_equal; lia.
+      * destruct (IH _ _ _ Ec p x1 E Hc Ho) as [Hin|Hex].
+        -- left. right. replace (i + S p) with (S i + p) by lia. auto.
+        -- right. auto.
+    + destruct p as [|p]; simpl in E.
+      * injection E as ->. right. exists x1. auto.
+      * destruct (IH _ _ _ Ec p x1 E Hc Ho) as [Hin|Hex].
+        -- left. replace (i + S p) with (S i + p) by lia. auto.
+        -- right. auto.
+Qed.
+
+Definition pipes_kept (a : act) (s s1 : st) : Prop :=
+  forall p x1, nth_error (pipes s1) p = Some x1 -> p_closed x1 = true -> p_onlist x1 = true ->
+    In (RPipe p) (rq s1) \/ (a <> APipeRemove p /\ exists x, nth_error (pipes s) p = Some x /\ p_closed x = true /\ p_onlist x = true).
+
+Lemma pipes_kept_same a s s1 : pipes s1 = pipes s -> (forall p, a <> APipeRemove p) -> pipes_kept a s s1.
+Proof. intros E Ha p x1 H1 H2 H3. right. split; auto. rewrite E in H1. eauto. Qed.
+
+Lemma pipes_kept_upd a s s1 p0 f : pipes s1 = upd (pipes s) p0 f ->
+  (forall x, p_closed (f x) = p_closed x) -> (forall x, p_onlist (f x) = p_onlist x) -> (forall p, a <> APipeRemove p) ->
+  pipes_kept a s s1.
+Proof.
+  intros E Hc Ho Ha p x1 H1 H2 H3. right. split; auto. rewrite E, nth_upd in H1.
+  destruct (Nat.eq_dec p0 p) as [->|]; [|eauto].
+  destruct (nth_error (pipes s) p) as [x|]; [|discriminate H1]. injection H1 as <-.
+  rewrite Hc in H2; rewrite Ho in H3. eauto.
+Qed.
+
+Lemma run_act_I2 fx s a s1 more : run_act fx s a = Some (s1, more) ->
+  (exists q, rq s1 = rq s ++ q) /\ pipes_kept a s s1.
+Proof.
+  intros H.
+  assert (Hq0: rq s = rq s ++ []) by (rewrite app_nil_r; auto).
+  destruct a; simpl in H;
+    try (repeat (match type of H with
+                 | context[match ?x with _ => _ end] => destruct x eqn:?
+                 | context[if ?x then _ else _] => destruct x eqn:?
+                 end); try discriminate H; inv_some H;
+         (split; [first [exists []; exact Hq0 | eexists; reflexivity]|]);
+         first [ apply pipes_kept_same; [reflexivity|intros; discriminate]
+               | eapply pipes_kept_upd; [reflexivity|intros []; reflexivity|intros []; reflexivity|intros; discriminate] ]; fail).
+  - (* AShutPipes *)
+    destruct (close_pipes 0 (fun _ => true) (pipes s)) as [ps q] eqn:E. inv_some H.
+    split; [eexists; reflexivity|]. intros p x1 H1 H2 H3. simpl in *.
+    destruct (close_pipes_I2 _ _ _ _ _ E p x1 H1 H2 H3) as [Hin|Hex].
+    + left. apply in_or_app; auto.
+    + right. split; [discriminate|auto].
+  - (* AEpClosePipes *)
+    destruct (close_pipes 0 (fun p => p_ep p =? e) (pipes s)) as [ps q] eqn:E. inv_some H.
+    split; [eexists; reflexivity|]. intros p x1 H1 H2 H3. simpl in *.
+    destruct (close_pipes_I2 _ _ _ _ _ E p x1 H1 H2 H3) as [Hin|Hex].
+    + left. apply in_or_app; auto.
+    + right. split; [discriminate|auto].
+  - (* AEpReap *)
+    destruct (ep_has_pipes s e); [|inv_some H; split; [exists []; exact Hq0|apply pipes_kept_same; [reflexivity|intros; discriminate]]].
+    destruct (close_pipes 0 (fun p => p_ep p =? e) (pipes s)) as [ps q] eqn:E. inv_some H.
+    split; [eexists; reflexivity|]. intros p x1 H1 H2 H3. simpl in *.
+    destruct (close_pipes_I2 _ _ _ _ _ E p x1 H1 H2 H3) as [Hin|Hex].
+    + left. apply in_or_app; right. apply in_or_app; auto.
+    + right. split; [discriminate|auto].
+  - (* APipeClose *)
+    destruct (nth_error (pipes s) p) as [x|] eqn:E; [|inv_some H; split; [exists []; exact Hq0|apply pipes_kept_same; [reflexivity|intros; discriminate]]].
+    destruct (p_freed x); [inv_some H; split; [exists []; exact Hq0|apply pipes_kept_same; [reflexivity|intros; discriminate]]|].
+    destruct (p_closed x) eqn:Ec; inv_some H; [split; [exists []; exact Hq0|apply pipes_kept_same; [reflexivity|intros; discriminate]]|].
+    split; [eexists; reflexivity|]. intros p' x1 H1 H2 H3. simpl in *. rewrite nth_upd in H1.
+    destruct (Nat.eq_dec p p') as [->|].
+    + left. apply in_or_app; right; simpl; auto.
+    + right. split; [discriminate|eauto].
+  - (* APipeRemove *)
+    inv_some H. split; [exists []; exact Hq0|]. intros p' x1 H1 H2 H3. simpl in *. rewrite nth_upd in H1.
+    destruct (Nat.eq_dec p p') as [->|].
+    + destruct (nth_error (pipes s) p') as [y|]; [|discriminate H1]. injection H1 as <-. destruct y; discriminate H3.
+    + right. split; [congruence|eauto].
+Qed.
+
+Lemma prog_noreap u : noreap (prog u) = true.
+Proof. destruct u; reflexivity. Qed.
+
+Lemma Forall_upd_set {A} (P : A -> Prop) (l : list A) i y : Forall P l -> P y -> Forall P (upd l i (fun _ => y)).
+Proof. intros H Hy; revert i; induction H; intros [|i]; simpl; constructor; auto. Qed.
+
+Theorem TInv_step fx s l s' : TInv s -> step fx s l = Some s' -> TInv s'.
+Proof.
+  intros (Hi2 & Hnr & Hrs) Hstep.
+  destruct l; simpl in Hstep.
+  - (* LSpawn *)
+    destruct (handle_known s u); [|discriminate Hstep]. injection Hstep as <-.
+    split; [exact Hi2|]. split; [|exact Hrs]. simpl. apply Forall_app1; auto. apply prog_noreap.
+  - (* LRun *)
+    destruct (nth_error (threads s) k) as [[|a rest]|] eqn:Et; try discriminate Hstep.
+    destruct (run_act fx s a) as [[s1 more]|] eqn:Er; [|discriminate Hstep]. injection Hstep as <-.
+    pose proof (run_act_frame _ _ _ _ _ Er) as [Ft Fr].
+    pose proof (run_act_noreap _ _ _ _ _ Er) as Hm.
+    pose proof (run_act_I2 _ _ _ _ _ Er) as [[q Hq] Hk].
+    split; [|split].
+    + intros p x1 H1 H2 H3. simpl in *.
+      destruct (Hk p x1 H1 H2 H3) as [Hin|(_ & x & E1 & E2 & E3)]; [auto|].
+      destruct (Hi2 p x E1 E2 E3) as [Hin|Hin]; [left; rewrite Hq; apply in_or_app; auto|right; rewrite Fr; auto].
+    + simpl. rewrite Ft. apply Forall_upd_set; auto.
+      rewrite noreap_app, Hm. simpl. pose proof (Forall_nth _ _ _ _ Hnr Et) as Hh. simpl in Hh. apply andb_prop in Hh as [_ Hn]; auto.
+    + simpl. rewrite Fr; auto.
+  - (* LReap *)
+    destruct (reaper s) as [|a rest] eqn:Erp.
+    + destruct (rq s) as [|[p|e] q] eqn:Eq; [discriminate Hstep| |]; injection Hstep as <-; (split; [|split; [exact Hnr|]]).
+      * intros p' x H1 H2 H3. simpl in *. destruct (Hi2 p' x H1 H2 H3) as [Hin|Hin].
+        -- rewrite Eq in Hin. destruct Hin as [Hin|Hin]; [injection Hin as ->; right; simpl; auto|auto].
+        -- rewrite Erp in Hin. destruct Hin.
+      * simpl. reflexivity.
+      * intros p' x H1 H2 H3. simpl in *. destruct (Hi2 p' x H1 H2 H3) as [Hin|Hin].
+        -- rewrite Eq in Hin. destruct Hin as [Hin|Hin]; [discriminate Hin|auto].
+        -- rewrite Erp in Hin. destruct Hin.
+      * simpl. reflexivity.
+    + destruct (run_act fx s a) as [[s1 more]|] eqn:Er; [|discriminate Hstep]. injection Hstep as <-.
+      pose proof (run_act_frame _ _ _ _ _ Er) as [Ft Fr].
+      pose proof (run_act_noreap _ _ _ _ _ Er) as Hm.
+      pose proof (run_act_I2 _ _ _ _ _ Er) as [[q Hq] Hk].
+      split; [|split].
+      * intros p x1 H1 H2 H3. simpl in *.
+        destruct (Hk p x1 H1 H2 H3) as [Hin|(Hne & x & E1 & E2 & E3)]; [auto|].
+        destruct (Hi2 p x E1 E2 E3) as [Hin|Hin]; [left; rewrite Hq; apply in_or_app; auto|].
+        right. rewrite Erp in Hin. destruct Hin as [Hin|Hin]; [congruence|]. apply in_or_app; auto.
+      * simpl. rewrite Ft; auto.
+      * simpl. apply noreap_shape. rewrite noreap_app, Hm. simpl.
+        unfold reaper_shape in Hrs. destruct a; simpl in Hrs; try (apply andb_prop in Hrs as [_ Hrs]; auto); auto.
+        subst rest; reflexivity.
+  - (* LEpCb *)
+    destruct (nth_error (eps s) e) as [x|]; [|discriminate Hstep].
+    destruct (e_busy x); [discriminate Hstep|]. injection Hstep as <-. split; [|split]; auto.
+  - (* LPipeCb *)
+    destruct (nth_error (pipes s) p) as [x|] eqn:E; [|discriminate Hstep].
+    destruct (p_busy x) as [|n]; [discriminate Hstep|]. injection Hstep as <-. split; [|split]; auto.
+    intros p' x1 H1 H2 H3. simpl in *. rewrite nth_upd in H1.
+    destruct (Nat.eq_dec p p') as [->|]; [|eauto].
+    rewrite E in H1. injection H1 as <-. destruct x; simpl in *. eapply Hi2; eauto.
+  - (* LComplete *)
+    destruct (has_aio a (k_pend (sk s))); [injection Hstep as <-; split; [|split]; auto|].
+    destruct (existsb (fun c => has_aio a (c_pend c)) (ctxs s)); [|discriminate Hstep].
+    injection Hstep as <-; split; [|split]; auto.
+  - (* LPipeCreate *)
+    destruct (nth_error (eps s) e) as [x|]; [|discriminate Hstep].
+    destruct (e_tranclosed x || e_freed x || negb (e_onlist x)); [discriminate Hstep|]. injection Hstep as <-.
+    split; [|split]; simpl; auto.
+    + intros p x1 H1 H2 H3. simpl in *.
+      destruct (lt_dec p (length (pipes s))) as [Hl|Hl].
+      * rewrite nth_error_app1 in H1 by auto. eauto.
+      * rewrite nth_error_app2 in H1 by lia. destruct (p - length (pipes s)) as [|[|]]; simpl in H1; try discriminate H1.
+        injection H1 as <-. discriminate H2.
+    + apply Forall_app1; auto.
+  - (* LPipeOp *)
+    destruct (nth_error (pipes s) p) as [x|] eqn:E; [|discriminate Hstep].
+    destruct (p_stopped x || p_freed x); [discriminate Hstep|]. injection Hstep as <-. split; [|split]; auto.
+    intros p' x1 H1 H2 H3. simpl in *. rewrite nth_upd in H1.
+    destruct (Nat.eq_dec p p') as [->|]; [|eauto].
+    rewrite E in H1. injection H1 as <-. destruct x; simpl in *. eapply Hi2; eauto.
+  - (* LEpOp *)
+    destruct (nth_error (eps s) e) as [x|]; [|discriminate Hstep].
+    destruct (e_stopped x || e_freed x); [discriminate Hstep|]. injection Hstep as <-. split; [|split]; auto.
+  - (* LDevStart *)
+    destruct (k_closing (sk s) || k_closed (sk s) || k_device (sk s) || k_freed (sk s)); [discriminate Hstep|].
+    injection Hstep as <-. split; [|split]; auto.
+Qed.
+
+Lemma TInv_init ph l f : TInv (init ph l f).
+Proof. split; [|split]; simpl; auto. intros [|p] x H; discriminate H. Qed.
+
+Theorem TInv_run fx ls : forall s s', TInv s -> run fx s ls = Some s' -> TInv s'.
+Proof.
+  induction ls as [|l r IH]; intros s s' Hi H; simpl in H.
+  - injection H as <-; auto.
+  - destruct (step fx s l) as [s1|] eqn:E; [|discriminate H]. apply (IH s1 s'); auto. eapply TInv_step; eauto.
+Qed.
+
+(* every state of every run of the repaired model satisfies the invariant, so: *)
+Theorem reachable_step_decreases ph la fi ls s l s' :
+  run fixes_all (init ph la fi) ls = Some s ->
+  internal s l = true -> step fixes_all s l = Some s' -> bad s' = bad s ->
+  lt3 (M3 s') (M3 s).
+Proof. intros Hr. apply step_decreases. eapply TInv_run; [apply TInv_init|eauto]. Qed.
+
+(* ================================================================ selection by the source's form *)
+Definition all_fixed (fx : fixes) : bool := fx_ephold fx && fx_epid fx && fx_ctxfini fx && fx_lateop fx && fx_ctxopen fx.
+
+Lemma all_fixed_eq fx : all_fixed fx = true -> fx = fixes_all.
+Proof. destruct fx as [[] [] [] [] []]; unfold all_fixed; simpl; intros H; try discriminate H; reflexivity. Qed.
+
+(* the defect that the first repair missing from [fx] leaves in the model (Part 1 of CloseProofs) *)
+Definition pinned_defect (fx : fixes) : Prop :=
+  match fx with
+  | mkFixes false _ _ _ _ =>
+      exists s, run fx (init PhProto false false) w_ephold = Some s /\ bad s = [B_REF_UNDERFLOW]
+  | mkFixes true false _ _ _ =>
+      exists s, run fx (init PhProto false false) w_epid = Some s /\ bad s = [B_FIND_FREED]
+  | mkFixes true true false _ _ =>
+      exists s, run fx (init PhFini true true) w_ctxfini = Some s /\
+                In (USockClose, C_OK, R_DESTROY) (rets s) /\ bad s = [] /\
+                (exists x, nth_error (ctxs s) 0 = Some x /\ c_pend x = [1%N]) /\
+                (exists s', step fx s (LRun 2) = Some s' /\ bad s' = [B_SOCK_FREED])
+  | mkFixes true true true false _ =>
+      exists s, run fx (init PhProto false false) w_lateop = Some s /\
+                In (USockClose, C_OK, R_DESTROY) (rets s) /\ k_freed (sk s) = true /\
+                k_pend (sk s) = [1%N] /\ done s = [] /\ no_internal_step fx s
+  | mkFixes true true true true false =>
+      exists s, run fx (init PhFini true true) w_ctxopen = Some s /\
+                (exists r, nth_error (threads s) 1 = Some (AWaitCtxs :: r)) /\
+                bad s = [] /\ no_internal_step fx s
+  | mkFixes true true true true true => False
+  end.
+
+Lemma pinned_defect_holds fx : all_fixed fx = false -> pinned_defect fx.
+Proof.
+  destruct fx as [[] [] [] [] []]; unfold all_fixed; simpl; intros H; try discriminate H;
+    first [apply ephold_refuted | apply epid_refuted | apply ctxfini_refuted | apply lateop_refuted | apply ctxopen_refuted].
+Qed.
+
+Definition Terminates (fx : fixes) : Prop :=
+  well_founded lt3 /\
+  forall ph la fi ls s l s',
+    run fx (init ph la fi) ls = Some s ->
+    internal s l = true -> step fx s l = Some s' -> bad s' = bad s -> lt3 (M3 s') (M3 s).
+
+Theorem terminates_sel fx : if all_fixed fx then Terminates fx else pinned_defect fx.
+Proof.
+  destruct (all_fixed fx) eqn:E; [|apply pinned_defect_holds; auto].
+  apply all_fixed_eq in E; subst. split; [apply lt3_wf|]. intros; eapply reachable_step_decreases; eauto.
+Qed.
